@@ -302,6 +302,10 @@ class C06(BbProp):
             if op == "set":
                 key, path = split_name(absname(cl["ns"], t[2]))
             a, loc = resolve(cl, key)
+            if c in hist["loc"] and c not in hist["untracked"]:
+                # the location a key addresses follows from the client's live registrations (tracked from the
+                # operations), not from the remapping table the implementation keeps
+                loc = hist["loc"][c].get(a)
             if op in ("setattr", "set"):
                 if not can_write(cl, a) or loc is None:
                     return self.cmp(o, S, None)
